@@ -486,7 +486,7 @@ impl Check {
                             cases: n,
                             failure_persistence: None,
                             rng_seed: RngSeed::Fixed(this.sub_seed(sub, w)),
-                            max_shrink_iters: 4000,
+                            max_shrink_iters: SHRINK_ITERS.load(std::sync::atomic::Ordering::Relaxed),
                             max_global_rejects: 1 << 20,
                             verbose: 0,
                             ..Config::default()
@@ -736,6 +736,9 @@ fn panic_failure(p: panics::PanicInfo) -> Failure {
     }
     Failure::new(format!("panic {}", p.location), p.render())
 }
+
+/// shrink budget per failing worker; checks whose cases cost a compiler run lower it
+pub static SHRINK_ITERS: std::sync::atomic::AtomicU32 = std::sync::atomic::AtomicU32::new(4000);
 
 pub fn harness_error(msg: impl AsRef<str>) -> ! {
     eprintln!("HARNESS ERROR: {}", msg.as_ref());
